@@ -60,4 +60,33 @@ PROPS = {
                         "BufReader::fill_buf hands out exactly what one read call of the underlying reader returned (compared on every run)",
                         "bytes are < 256 (single-byte sensitivity is stated for byte values)"],
     },
+    "C12": {
+        "props_files": ["C12"],
+        "theorems": ["C12_native_inside", "C12_native_idempotent", "C12_every_operation"],
+        "components": ["path"],
+        "rule": "cases = batches of names for one root. N: real get_native_path on every '/'-joined sequence of up to 5 (thorough 6) "
+                "tokens of {a, b, ., .., '', /, <root>, <root>x} for root /vr/root, up to 4 tokens for the roots '/', '/r/', '//vr//root', "
+                "every concatenation of up to 6 (thorough 7) symbols of {a, ., /, <root>}, and random names (20% malformed: control bytes, "
+                "spaces, %, non-ASCII UTF-8); C: camino components of the name itself; F: every NativeFileStore operation (create/delete/"
+                "rename/append/replace file, create/remove/list directory, open read/write/append, get_size, process_request x 9 actions) "
+                "executed in a temporary sandbox T/{root, rootx, outside, top} on every sequence of up to 3 (thorough 4) tokens of "
+                "{'', ., .., f, d, o, outside, <root>, <root>x, s, new} plus hand-written deeper attacks, with a recursive snapshot of "
+                "everything outside root before/after; non-trivial = at least 2 operations; distinct = distinct op-list text",
+        "explanation": "Theorems over Model/Path.v for every byte string as name and every absolute normal root (structural induction over the "
+                       "string / component list); model tied to filestore.rs and to camino/std::path by differential execution (native path "
+                       "strings and component lists compared); oracle on the implementation alone: the returned native path, resolved on the raw "
+                       "string, must lie below the root, and no operation may create, change, remove or reveal anything outside root in the sandbox.",
+        "level_text": "Full proof on the model (lexical; symbolic links excluded by assumption): for every absolute, already-normal root and every "
+                      "name whatsoever, get_native_path returns the root's components followed by plain names only (no '..' or '.' left), hence "
+                      "a path that resolves below the root; it is idempotent (string equality), so the double mapping inside process_request "
+                      "changes nothing; every path handed to std::fs by any of the operations has the property. The model of std::path "
+                      "(components, strip_prefix, push, pop) is tied to camino by exhaustive comparison over the property's alphabet. This is "
+                      "the right level because the property quantifies over all names and all operations of a pure string function.",
+        "level_note": "Trusted: Coq kernel; extraction; driver/harness printing; the Unix rules of std::path as modelled in Path.v (compared "
+                      "exhaustively on the alphabet, not proved); lexical resolution as the meaning of a path (no symbolic links inside or "
+                      "leading to the root). A relative or empty root is outside the theorem's hypothesis (such a store has no well-defined inside).",
+        "assumptions": ["the filestore root is absolute and already normal ('/' followed by plain names)",
+                        "no symbolic links: the kernel resolves '..' lexically",
+                        "std::path/camino component rules are as modelled (compared on every run)"],
+    },
 }
